@@ -520,7 +520,7 @@ package mcp
 //@   ensures[C03 handler-failure-is-500] true
 //@ func httpServerHandler.handlePostResponse
 //@   requires status(w) == 0
-//@   modifies *, status(w), hval, handled
+//@   modifies *, status(w), hval, handled, errlogs
 //@   ensures[C03,C06] status(w) != 0
 //@   ensures[C04 answer-without-session-is-404] isnil(session) ==> status(w) == 404 || status(w) == 400
 //@ func httpServerHandler.handleDelete
@@ -1402,7 +1402,7 @@ package mcp
 //@ func SSEServer.processRequestAsync
 //@   counted asyncreqs
 //@ func SSEServer.handleRequestMessage
-//@   ensures[C15,C14 a-request-is-either-undecodable-and-logged-or-processed-through-the-chain] asyncreqs == old(asyncreqs) + 1 || errlogs == old(errlogs) + 1
+//@   ensures[C15,C14,C01 a-request-is-either-undecodable-and-logged-or-processed-through-the-chain] asyncreqs == old(asyncreqs) + 1 || errlogs == old(errlogs) + 1
 //@
 // C19 — the listening stream is started from the handshake context
 //@ func Client.Initialize
@@ -1846,4 +1846,33 @@ package mcp
 // (a handler that waits for a later request, or for the client's answer to a server request, would otherwise block the connection)
 //@ func stdioTransport.processInputStream$1
 //@   before call processMessage#1 assert[C01 every-line-read-is-processed-on-its-own-goroutine] arg2 == line
+//@
+// ---- tenth measurement round (ids -11): general facts behind the misses ----
+// C09 — nothing of the library but the stdio transport touches the process's standard output (loggers included)
+//@ sweepscope[C09] kinds=nostdout files=internal/log/zaplogger.go,logger.go,server.go,sse_server.go,streamable_server.go,handler.go,client.go,stdio_client.go,transport_stdio.go,streamable_client.go,sse_client.go,manager_tools.go,manager_prompt.go,manager_resource.go,manager_lifecycle.go,notifier.go,responder_sse.go,responder_json.go,internal/sseutil/writer.go,internal/session/session.go
+//@
+// C14 / C06 — a handler may be given no session (sessions disabled on Streamable HTTP): Session methods are invoked
+// only where the session is known to be present, so that every server kind answers alike
+//@ sweepscope[C14,C06] kinds=nilsession files=manager_lifecycle.go,manager_tools.go,manager_prompt.go,manager_resource.go,handler.go
+//@
+// C12 / C20 — a registry entry is immutable once stored: re-registration replaces the entry, it never edits the
+// one that running calls have already looked up
+//@ type registeredTool
+//@   final[C12,C20] Tool, Handler
+//@ type registeredPrompt
+//@   final[C12,C20] Prompt, Handler
+//@ type registeredResource
+//@   final[C12,C20] Resource, Handler
+//@
+// C10 — what a notification handler returns does not end the call that is reading its answer
+//@ func streamableHTTPClientTransport.handleNotificationMessage
+//@   ensures[C10 a-handlers-error-does-not-end-the-call] notifcalls == old(notifcalls) + 1 ==> ret1 == nil
+//@
+// C07 — the listening stream is attempted once per establish call: a server that ends it at once cannot make the
+// client spin
+//@ ghost stable getconnects int
+//@ func streamableHTTPClientTransport.connectGetSSE
+//@   counted getconnects
+//@ func streamableHTTPClientTransport.establishGetSSE$1
+//@   ensures[C07 one-connection-attempt-per-establish-call] getconnects <= old(getconnects) + 1
 //@
